@@ -549,6 +549,10 @@ def variants40(scn, tier, k):
             out.append(dict(base, kind="hot", tmap="bunched", dmode="gap", profile="falsy", salt=(h + 5) % 8))
         if scn["op"] == "do_finally":
             out.append(dict(base, kind="cold", tmap="spread", dmode="tie", form="direct"))
+    else:
+        # quick tier: the two plain realisations always, the others in rotation (each scenario gets about half
+        # of them; every realisation still meets thousands of scenarios)
+        out = out[:2] + [v for j, v in enumerate(out[2:]) if (h + j) % 2 == 0]
     return out
 
 
@@ -817,7 +821,10 @@ def perform_st(scn, variant):
         gate = threading.Event()
         before = set(threading.enumerate())
     else:
-        sched = ImmediateScheduler() if cfg["sched"] == "immediate" else (TestScheduler() if variant.get("vs", "test") == "test" else VirtualTimeScheduler())
+        from reactivex.scheduler import HistoricalScheduler
+        vs = variant.get("vs", "test")
+        sched = ImmediateScheduler() if cfg["sched"] == "immediate" else \
+            {"test": TestScheduler, "vts": VirtualTimeScheduler, "hist": HistoricalScheduler}[vs]()
     invocations: List[tuple] = []
 
     def func(*args):
@@ -848,7 +855,11 @@ def perform_st(scn, variant):
                     th.join(60.0)
                 gate.clear()
             elif c == "run":
-                sched.advance_by(1.0)
+                if isinstance(sched, HistoricalScheduler):
+                    from datetime import timedelta
+                    sched.advance_by(timedelta(seconds=1))
+                else:
+                    sched.advance_by(1.0)
             elif c == "subscribe":
                 k = len(recs) + 1
                 recs[k] = Rec()
@@ -1220,7 +1231,7 @@ def variants41(scn, tier):
     if part in ("ff", "cb"):
         return [dict(profile="plain", salt=h % 2), dict(profile="falsy", salt=h % 8)]
     if part == "st":
-        out = [dict(profile="plain", salt=h % 2, vs="test"), dict(profile="falsy", salt=h % 8, vs="vts")]
+        out = [dict(profile="plain", salt=h % 2, vs="test"), dict(profile="falsy", salt=h % 8, vs="vts" if h % 2 else "hist")]
         if cfg["sched"] == "virtual" and h % (8 if tier == "quick" else 16) == 0:
             out.append(dict(profile="plain", salt=h % 2, vs="timeout"))     # the default scheduler, real timer threads
         return out
